@@ -127,7 +127,7 @@ func generate(r *rng.R, thorough bool, index int) *history {
 		}
 	}
 	dt := func() int64 {
-		if policy && r.Chance(80) {
+		if (policy && r.Chance(80)) || (retry && r.Chance(92)) {
 			return int64(r.Intn(4))*sec + 1 + int64(r.Intn(1000))
 		}
 		switch x := r.Intn(100); {
